@@ -82,7 +82,8 @@ Definition setattr (E : env) (c : cls) (s : inst) (n : Z) (v : pv) : inst * outc
   match trait_of c n with
   | None => (s, Raise EOtherError)            (* not a validated attribute: outside the model *)
   | Some (d, dflt) =>
-      match validate E d v with
+      (* ctraits.c:2446-2455: "If the object's value is Undefined, then do not call the validate method" *)
+      match (if is_undefined v then Accept v else validate E d v) with
       | Reject => (s, Raise ETraitError)
       | Propagate e => (s, Raise e)
       | Accept w =>
